@@ -467,12 +467,13 @@ def _run_group(g, r, sdir, log):
         targs = ['--trace']
         for n in real_failed[:4]:
             targs += ['--property', n]
-        try:
+
+        def trace_pass(binary):
             w = SOLVER_SLOTS.acquire(g.weight)
             try:
-                tchk = chk
+                tchk = [binary if a == gb2 else a for a in chk]
                 if g.refuter and r.reason.startswith('verdict by refuter'):
-                    tchk = [a for a in chk if a not in ('--cvc5', '--z3')] + ['--external-sat-solver', g.refuter]
+                    tchk = [a for a in tchk if a not in ('--cvc5', '--z3')] + ['--external-sat-solver', g.refuter]
                 rc, out, dt = sh(tchk + targs, sdir, g.timeout, log)
             finally:
                 SOLVER_SLOTS.release(w)
@@ -483,11 +484,25 @@ def _run_group(g, r, sdir, log):
                     for p in x['result']:
                         if p.get('status') == 'FAILURE' and p.get('trace'):
                             traced[p.get('property')] = p['trace']
-            for p in results:
-                if p.get('property') in traced:
-                    p['trace'] = traced[p.get('property')]
+            return traced
+        traced = {}
+        if g.replay:
+            # prefer a counterexample with small named inputs (the native replay rebuilds the state through
+            # the public API); obligations that fail only for large inputs keep the unconstrained one below
+            try:
+                traced = trace_pass(build('s', (['-DVF_CANARY'] if g.covers else []) + ['-DVF_SMALL_WITNESS=6']))
+            except Infra:
+                traced = {}
+        try:
+            missing = [n for n in real_failed[:4] if n not in traced]
+            if missing:
+                for k, v in trace_pass(gb2).items():
+                    traced.setdefault(k, v)
         except Infra:
             pass      # the verdicts stand; the replay file then carries no inputs
+        for p in results:
+            if p.get('property') in traced:
+                p['trace'] = traced[p.get('property')]
     bad = []
     end_ok, n_end, abort_ok = True, 0, False
     for p in results:
